@@ -402,7 +402,19 @@ def positional (s : St) (dn iname : String) (es : List XExpr) : M St := do
     let (s, _) ← es.foldlM (fun (acc : St × Nat) e => do
       let (s, idx) := acc
       let (s, ws) ← evalExprE s dn e
-      if idx ≥ nports then throw "unsupported: positional map on a module without that port" else
+      if idx ≥ nports then
+        -- no such port in the list taken when this instance's turn came (a never-declared module):
+        -- `reference.create_port()` + `populate_new_port(port, None, len(wires) - 1, 0, None)`: a new UNNAMED port
+        -- at the end, whatever other instances have created meanwhile
+        let p := populateNew (some ((ws.length : Int) - 1)) (some 0)
+        let port : Port := ⟨none, .undef, p.1, p.2.2, List.replicate p.2.1 none, none⟩
+        let rd ← getDef s ref
+        let k := rd.ports.length
+        let s := s.upd ref (fun d => { d with ports := d.ports ++ [port] })
+        let s := mapInstRows s ref k (fun _ => List.replicate p.2.1 none)
+        let s ← connectInstRow s dn iname k ws
+        pure (s, idx + 1)
+      else
       let s ← connectInstRow s dn iname idx ws
       pure (s, idx + 1)) (s, 0)
     pure s
